@@ -340,31 +340,12 @@ func c12(c *Ctx) {
 		} else {
 			// Manual ∧ referenced ⇒ pinned, with no further condition: every write
 			// lies beyond "no reference yet", "no policy" or "policy != Manual"
-			var notPinned []cfgx.Edge
-			for _, b := range ft.Blocks {
-				for _, in := range b.Instrs {
-					bo, ok := in.(*ssa.BinOp)
-					if !ok {
-						continue
-					}
-					if (bo.Op == token.NEQ || bo.Op == token.EQL) && cfgx.IsNilConst(bo.Y) && (hasSuffixCall(bo.X, ".GetCompositionRevisionReference") || hasSuffixCall(bo.X, ".GetCompositionUpdatePolicy")) {
-						t, f := cfgx.CondEdges(bo)
-						if bo.Op == token.NEQ {
-							notPinned = append(notPinned, f...)
-						} else {
-							notPinned = append(notPinned, t...)
-						}
-					}
-					if bo.Op == token.EQL {
-						for _, sv := range []ssa.Value{bo.X, bo.Y} {
-							if v, ok := cfgx.ConstString(sv); ok && v == "Manual" {
-								_, f := cfgx.CondEdges(bo)
-								notPinned = append(notPinned, f...)
-							}
-						}
-					}
-				}
+			isRefOrPol := func(x, y ssa.Value) bool {
+				return cfgx.IsNilConst(y) && (hasSuffixCall(x, ".GetCompositionRevisionReference") || hasSuffixCall(x, ".GetCompositionUpdatePolicy"))
 			}
+			isManual := func(x, y ssa.Value) bool { v, ok := cfgx.ConstString(y); return ok && v == "Manual" }
+			conj := append(findCmps(ft, false, isRefOrPol), findCmps(ft, true, isManual)...)
+			notPinned := conjFalseEdges(ft, conj)
 			rets := cfgx.ReturnsReachable(manual, notPinned)
 			for _, w := range directWrites(ft) {
 				r, _ := cfgx.ReachableFromEdges(manual, w, notPinned, nil)
@@ -388,24 +369,16 @@ func c12(c *Ctx) {
 		ap := calls(ft, applicatorApply)
 		if c.expect("Apply", len(ap), 1, ft) {
 			var differs []cfgx.Edge
-			for _, b := range ft.Blocks {
-				for _, in := range b.Instrs {
-					bo, ok := in.(*ssa.BinOp)
-					if !ok {
-						continue
-					}
-					if bo.Op == token.EQL && (cfgx.IsNilConst(bo.Y) && hasSuffixCall(bo.X, ".GetCompositionRevisionReference")) {
-						t, _ := cfgx.CondEdges(bo)
-						differs = append(differs, t...)
-					}
-					if bo.Op == token.NEQ {
-						_, px, _ := flow.AccessPath(bo.X)
-						if px == "Name" && (hasSuffixCall(bo.Y, ".GetName")) {
-							t, _ := cfgx.CondEdges(bo)
-							differs = append(differs, t...)
-						}
-					}
-				}
+			for _, cf := range findCmps(ft, true, func(x, y ssa.Value) bool {
+				return cfgx.IsNilConst(y) && hasSuffixCall(x, ".GetCompositionRevisionReference")
+			}) {
+				differs = append(differs, cf.Holds...)
+			}
+			for _, cf := range findCmps(ft, false, func(x, y ssa.Value) bool {
+				_, px, _ := flow.AccessPath(x)
+				return px == "Name" && hasSuffixCall(y, ".GetName")
+			}) {
+				differs = append(differs, cf.Holds...)
 			}
 			c.requireCross(site(ap[0])+" only-when-different", ap[0], differs, "no reference yet, or its name differs from the latest revision's")
 		}
